@@ -84,6 +84,7 @@ pub enum Kind {
     PrefName,
     TwoNames,
     Svc,
+    Aname,
     Opaque,
 }
 
@@ -111,6 +112,7 @@ fn kind() -> impl Strategy<Value = Kind> {
         1 => Just(Kind::PrefName),
         1 => Just(Kind::TwoNames),
         2 => Just(Kind::Svc),
+        1 => Just(Kind::Aname),
         2 => Just(Kind::Opaque),
     ]
 }
@@ -279,6 +281,7 @@ fn build(kind: Kind, i: usize, s: &Seed) -> MRdata {
             target: nm(0),
             port: if num(1) % 2 == 0 { None } else { Some(num(2) as u16) },
         },
+        Kind::Aname => MRdata::Aname(nm(0)),
         Kind::Opaque => MRdata::Opaque {
             // type codes without any special rule, unknown to hickory: SPF(99), URI(256),
             // private use
@@ -346,6 +349,7 @@ pub fn case_variant(rd: &MRdata, mask: u64) -> MRdata {
             next: flip(next),
             types: types.clone(),
         },
+        MRdata::Aname(n) => MRdata::Aname(flip(n)),
         MRdata::Svc { code, prio, target, port } => MRdata::Svc {
             code: *code,
             prio: *prio,
